@@ -1,6 +1,6 @@
 /* C07/C08 - HISTORY LEMMA over the CONTRACTS of cocls::mutex (DESIGN 3.6; vocabulary, abstraction and assumptions: lemma_spec.h).
  *
- *   mx_lemma():  a fresh mutex, then an UNBOUNDED loop "any party performs any operation": try-lock (ready), lock request (subscribe), the
+ *   mx_lemma():  a fresh mutex (constructor replaced by its contract), then an UNBOUNDED loop "any party performs any operation": try-lock (ready), lock request (subscribe), the
  *   deferred detach of an owner that acquired by its own push, release by release() / by ownership destruction (unlock<Fn>, both instantiations).
  *   Every call of ready / subscribe / unlock is REPLACED by its contract (m_spec.h); nothing of mutex.h is executed here.
  *
@@ -24,10 +24,15 @@ __CPROVER_assigns(gh_M_cell, gh_DOORMAN, PROTM_GHOSTS, gh_bq_calls, gh_bq_stop, 
 __CPROVER_ensures(1)
 {
   MX m_obj; MX *m = &m_obj; AWT nodeA, nodeB, nodeO; LAMREL frel; LAMDEL fdel;
-  /* ---- the history starts with a fresh mutex (mutex.h: `_requests = nullptr`, `_queue = nullptr`) */
+  /* ---- the history starts with a fresh mutex: the call of mutex::mutex() is REPLACED by its contract (m_spec.h; the real constructor satisfies it:
+   * unit mx_ctor), the initial abstract state is "nobody owns, no request ever made", and what the constructor establishes must be exactly the
+   * concrete image of that state (the same expressions MX_MATERIALISE uses for cell and private queue) */
+  mx_ctor(m);
   struct mx_abs S = {0, 0, 0, 0, 0, 0, 0};
   struct mx_req a = {R_NOT, 0, 0, 0}, b = {R_NOT, 0, 0, 0};
   __CPROVER_assert(LEMMA_INV, "LEMMA base: a fresh mutex satisfies the invariant of the history loop");
+  __CPROVER_assert(*M_CELL(m) == CELL_OF(S) && m->_queue == (S.g < S.q_hi ? NODE_OF(S.g) : (AWT *)0),
+                   "LEMMA base: the state the constructor establishes (its contract) is the concrete image of the initial abstract state: unlocked, nothing pending");
   /* continue from an ARBITRARY state satisfying the invariant (what the loop contract does anyway; explicit so that every branch SENTINEL is
    * reachable in every copy of the loop body - see specs/C10/h_lemma.c) */
   { struct mx_abs hS; struct mx_req ha, hb; S = hS; a = ha; b = hb; __CPROVER_assume(LEMMA_INV); }
